@@ -393,6 +393,12 @@ def task_process_message(cls, registered):
                        lets_through(st0.policy(e, mdev), payload))
         run.oblige("C05,C04|process_message[%s]/clients-exactly-once-by-policy" % tag,
                    forall(e, z3.Select(I.ghost["cli_cnt"], e) == ite(cspec, 1, 0)))
+        if payload:
+            run.oblige("C08,C05|process_message[%s]/clients-that-did-not-enable-BLOBs-receive-no-payload" % tag,
+                       forall(e, implies(z3.Or(st0.policy(e, mdev) == UNSET, st0.policy(e, mdev) == NEVER), z3.Select(I.ghost["cli_cnt"], e) == 0)))
+            run.oblige("C08,C05|process_message[%s]/every-other-client-that-enabled-BLOBs-receives-the-payload-once" % tag,
+                       forall(e, implies(z3.And(st0.is_client(e, pos_c), e != sender.term, z3.Or(st0.policy(e, mdev) == ALSO, st0.policy(e, mdev) == ONLY)),
+                                         z3.Select(I.ghost["cli_cnt"], e) == 1)))
         if fc:
             run.canary("C04|canary[%s]/no-device-ever-receives-it" % tag, forall(e, z3.Select(I.ghost["dev_cnt"], e) == 0))
         if fd:
